@@ -1,6 +1,7 @@
 import Hls.Proto
 import Hls.Playlist.MediaModel
 import Hls.Playlist.MediaGrammar
+import Hls.Playlist.MediaFloat
 /-! Model driver for the `playlist` correspondence stream (C14, C15): media playlists.
 
 ops
@@ -213,7 +214,8 @@ def pMedia : P Media := fun ts => do
           serverControl := sc, partInf := pi, mediaSequence := ms, discontinuitySequence := ds, playlistType := pt,
           map := map, skip := skip, segments := segs, parts := parts, preloadHint := ph, endlist := el }, r)
 
-def C : Codec := Codec.go
+/-- the codec whose validity is PROVED (`Codec.prim_valid`): soft-float durations of `Prim.lean`, Go time layout -/
+def C : Codec := Codec.prim
 
 def doMar (ts : List String) : String :=
   match pMedia ts with
